@@ -34,11 +34,12 @@ def parseReport (j : Json) : R (List (ModDesc JJ)) := do
     return ⟨← fldStr m "name", ← (← fldArr m "accs").mapM parseAccDesc, ← parsePropsArr (← fld m "props")⟩)
 
 /-- the accessible a request is aimed at (`change m` means `m:target`, `read m` means `m:value`) -/
-def aim (r : Request JJ) : Option (ProbeKind × String × String) :=
+def aim (r : Request JJ VV) : Option (ProbeKind × String × String) :=
   match r with
   | .change spec _ => (target "target" spec).map (fun ma => (.change, ma.1, ma.2))
   | .read spec hd => if hd then none else (target "value" spec).map (fun ma => (.read, ma.1, ma.2))
   | .do_ spec _ => (targetDo spec).map (fun ma => (.do_, ma.1, ma.2))
+  | .assign .. => none
 
 def handle (j : Json) : R Json := do
   let k ← fldStr j "k"
